@@ -387,6 +387,56 @@ theorem get_insert {k : Nat} {v : ν} {m : NMap ν} (k' : Nat) :
           simp [this]
         · simp [h1]
 
+theorem mem_insert {k : Nat} {v : ν} {m : NMap ν} {p : Nat × ν} (h : p ∈ insert k v m) :
+    p = (k, v) ∨ p ∈ m := by
+  induction m with
+  | nil => simp [insert] at h; exact Or.inl h
+  | cons q m ih =>
+    obtain ⟨kq, vq⟩ := q
+    simp only [insert] at h
+    split at h
+    · cases h with
+      | head => exact Or.inl rfl
+      | tail _ h' => exact Or.inr h'
+    · split at h
+      · cases h with
+        | head => exact Or.inl rfl
+        | tail _ h' => exact Or.inr (List.mem_cons_of_mem _ h')
+      · cases h with
+        | head => exact Or.inr (by simp)
+        | tail _ h' =>
+          rcases ih h' with h1 | h1
+          · exact Or.inl h1
+          · exact Or.inr (List.mem_cons_of_mem _ h1)
+
+theorem get_of_mem {m : NMap ν} (hwf : WF m) {p : Nat × ν} (hp : p ∈ m) :
+    get m p.1 = some p.2 := by
+  induction m with
+  | nil => cases hp
+  | cons q m ih =>
+    have ⟨hlb, hw⟩ := wf_cons.mp hwf
+    rw [get_cons]
+    cases hp with
+    | head => simp
+    | tail _ hp' =>
+      have : q.1 < p.1 := hlb p hp'
+      rw [if_neg (by omega)]
+      exact ih hw hp'
+
+theorem mem_of_get {m : NMap ν} {k : Nat} {v : ν} (h : get m k = some v) : (k, v) ∈ m := by
+  induction m with
+  | nil => simp at h
+  | cons q m ih =>
+    rw [get_cons] at h
+    split at h
+    · rename_i hk
+      cases h
+      obtain ⟨kq, vq⟩ := q
+      simp at hk
+      subst hk
+      simp
+    · exact List.mem_cons_of_mem _ (ih h)
+
 theorem LB_erase {k k' : Nat} {m : NMap ν} (h : LB k m) : LB k (erase k' m) := by
   induction m with
   | nil => simpa [erase] using h
